@@ -111,6 +111,13 @@ CHECKS = {
           'under a filter that accepts exactly the three global identifier kinds; references are rewritten last-to-first from a scanner that finds adjacent references; every RSCore entry point rewrites formal part and texts, and renaming with substitution translates the whole storage on both sides.',
   'note': '"Same schema up to renaming" (dependency structure, statuses, typifications) and the UTF-8 byte/code-point arithmetic of the iterator are not decided. Whole-identifier matching relies on the MATH lexer DFA (longest match), decided under C05.',
  },
+ 'C12': {
+  'technique': 'guard-dominance (refusal purity), mod-set of the const admissibility test, presence/orientation of the precheck guards, data-flow rules for translation bookkeeping and rewrite-before-erase order',
+  'text': 'Decides: an inadmissible equation table or an incorrectly defined synthesis is refused before any state change; the admissibility test is const and writes only scratch; the prechecks include transitive dependence in the formal and the term graph with the right orientation; '
+          'every equated pair and every erased duplicate is recorded, the duplicate translation is composed with the equation translation, both operand translations receive it; mentions are rewritten for every constituent on both sides before the equated constituents are erased; '
+          'merging records and translates every copied constituent unconditionally.',
+  'note': 'Correctness and type preservation of the resulting schema, and totality of the translations as data, are value-level and not decided. EntityTranslation::SuperposeWith/SubstituteValues themselves are trusted (header-only helpers).',
+ },
 }
 
 _PENDING = 'rule module not yet implemented in this round; see DESIGN.md section 4 for the clauses planned'
